@@ -9,12 +9,13 @@ Open Scope string_scope.
 Open Scope N_scope.
 
 (** the records of the two parsers of disasm.go: i386Parser.Info = arch.I386, x86_64Parser.Info = arch.X86_64 *)
-Definition rec_i386 : N * list (N * string) := (ai_id info_I386, ai_table info_I386).
-Definition rec_x86_64 : N * list (N * string) := (ai_id info_X86_64, ai_table info_X86_64).
+Definition rec_of_info (ai:arch_info) : arch_rec := {| ar_id := ai_id ai; ar_mask := ai_mask ai; ar_table := ai_table ai |}.
+Definition rec_i386 : arch_rec := rec_of_info info_I386.
+Definition rec_x86_64 : arch_rec := rec_of_info info_X86_64.
 
 (** disasm.ExtractSyscalls(arch, file) *)
 Definition extract (ai:arch_info) (f:file) : outcome (list syscall) :=
-  extract_syscalls rec_i386 rec_x86_64 (ai_id ai) f.
+  extract_syscalls rec_i386 rec_x86_64 (ai_id ai) (ai_mask ai) f.
 
 (** a text [a] that ends at a line boundary *)
 Definition at_line_boundary (a:string) : Prop := a = EmptyString \/ exists a', a = a' ++ newline.
@@ -22,11 +23,11 @@ Definition at_line_boundary (a:string) : Prop := a = EmptyString \/ exists a', a
 (** extraction never panics and always returns: a list or an error, for every architecture record,
     every text and every behaviour of the reader *)
 Theorem C16_never_panics : forall ai f, extract ai f <> Panic.
-Proof. intros ai f. exact (extract_never_panics rec_i386 rec_x86_64 (ai_id ai) f). Qed.
+Proof. intros ai f. exact (extract_never_panics rec_i386 rec_x86_64 (ai_id ai) (ai_mask ai) f). Qed.
 Print Assumptions C16_never_panics.
 
 Theorem C16_total : forall ai f, (exists recs, extract ai f = Done recs) \/ (exists e, extract ai f = Failed e).
-Proof. intros ai f. exact (extract_total rec_i386 rec_x86_64 (ai_id ai) f). Qed.
+Proof. intros ai f. exact (extract_total rec_i386 rec_x86_64 (ai_id ai) (ai_mask ai) f). Qed.
 Print Assumptions C16_total.
 
 (** the reader fails after any prefix [data] of the text (a directory: the empty prefix), or the file
@@ -35,8 +36,8 @@ Theorem C16_read_error_is_error : forall ai,
   (forall data, exists e, extract ai (Content data true) = Failed e) /\ (exists e, extract ai OpenFails = Failed e).
 Proof.
   intros ai. split.
-  - intros data. exact (extract_read_error_is_error rec_i386 rec_x86_64 (ai_id ai) data).
-  - exact (extract_open_error_is_error rec_i386 rec_x86_64 (ai_id ai)).
+  - intros data. exact (extract_read_error_is_error rec_i386 rec_x86_64 (ai_id ai) (ai_mask ai) data).
+  - exact (extract_open_error_is_error rec_i386 rec_x86_64 (ai_id ai) (ai_mask ai)).
 Qed.
 Print Assumptions C16_read_error_is_error.
 
@@ -45,13 +46,13 @@ Theorem C16_long_line_is_error : forall ai a l b fails,
   at_line_boundary a -> (b = EmptyString \/ exists b', b = String nl b') ->
   no_nl l -> 65536 <= length_N l ->
   exists e, extract ai (Content (a ++ l ++ b) fails) = Failed e.
-Proof. intros ai. exact (extract_long_line_is_error rec_i386 rec_x86_64 (ai_id ai)). Qed.
+Proof. intros ai. exact (extract_long_line_is_error rec_i386 rec_x86_64 (ai_id ai) (ai_mask ai)). Qed.
 Print Assumptions C16_long_line_is_error.
 
 (** a list is returned only when the text was read to its end and every line was within the limit *)
 Theorem C16_done_means_complete : forall ai data fails recs, extract ai (Content data fails) = Done recs ->
   fails = false /\ Forall (fun line => length_N line < 65536) (scan_raw data).
-Proof. intros ai. exact (extract_done_means_complete rec_i386 rec_x86_64 (ai_id ai)). Qed.
+Proof. intros ai. exact (extract_done_means_complete rec_i386 rec_x86_64 (ai_id ai) (ai_mask ai)). Qed.
 Print Assumptions C16_done_means_complete.
 
 (** function scoping: the syscalls found in a text [b] that starts with a function marker are the same
@@ -60,7 +61,7 @@ Theorem C16_function_scoped : forall ai a b ra rb,
   at_line_boundary a -> has_prefix "TEXT" b = true ->
   extract ai (Content a false) = Done ra -> extract ai (Content b false) = Done rb ->
   extract ai (Content (a ++ b) false) = Done (ra ++ rb)%list.
-Proof. intros ai. exact (extract_function_scoped_text rec_i386 rec_x86_64 (ai_id ai)). Qed.
+Proof. intros ai. exact (extract_function_scoped_text rec_i386 rec_x86_64 (ai_id ai) (ai_mask ai)). Qed.
 Print Assumptions C16_function_scoped.
 
 (** the same on scanned lines, from any state of the loop, for both parsers *)
@@ -75,25 +76,42 @@ Theorem C16_append_monotone : forall ai a b ra rb,
   at_line_boundary a ->
   extract ai (Content a false) = Done ra -> extract ai (Content b false) = Done rb ->
   exists rest, extract ai (Content (a ++ b) false) = Done (ra ++ rest)%list.
-Proof. intros ai. exact (extract_append_monotone_text rec_i386 rec_x86_64 (ai_id ai)). Qed.
+Proof. intros ai. exact (extract_append_monotone_text rec_i386 rec_x86_64 (ai_id ai) (ai_mask ai)). Qed.
 Print Assumptions C16_append_monotone.
 
-(** every reported syscall is an entry (number, name) of the regenerated table of the architecture *)
-Theorem C16_reported_in_table :
-  (forall f recs, extract info_X86_64 f = Done recs -> Forall (in_table (ai_table info_X86_64)) recs) /\
-  (forall f recs, extract info_I386 f = Done recs -> Forall (in_table (ai_table info_I386)) recs).
+(** every reported syscall is an entry (number, name) of the table of the architecture record that was
+    passed in -- for EVERY record of the regenerated arch package (x32, which shares the audit id of
+    x86_64 but has another table, is refused: see C16_x32_refused) *)
+Theorem C16_reported_in_table : forall key ai, In (key, ai) all_infos ->
+  forall f recs, extract ai f = Done recs -> Forall (in_table (ai_table ai)) recs.
 Proof.
-  split; intros f recs H;
-    destruct (extract_reported_in_table rec_i386 rec_x86_64 _ f recs H) as [[E F]|[NE [E F]]];
-    try exact F; exfalso; [vm_compute in E; discriminate E|apply NE; reflexivity].
+  assert (H: forallb (fun e => own_table_ok rec_i386 rec_x86_64 (ai_id (snd e)) (ai_mask (snd e)) (ai_table (snd e))) all_infos = true)
+    by (vm_compute; reflexivity).
+  rewrite forallb_forall in H. intros key ai Hin f recs E. specialize (H _ Hin). cbn [snd] in H.
+  exact (extract_reported_in_own_table rec_i386 rec_x86_64 _ _ _ f recs H E).
 Qed.
 Print Assumptions C16_reported_in_table.
 
-(** every other architecture id is refused *)
+(** the two supported records are records of the package, so the statement above is not vacuous *)
+Theorem C16_supported_records : In ("X86_64", info_X86_64) all_infos /\ In ("I386", info_I386) all_infos /\
+  selects (ai_id info_X86_64) (ai_mask info_X86_64) rec_x86_64 = true /\ selects (ai_id info_I386) (ai_mask info_I386) rec_i386 = true.
+Proof.
+  split; [unfold all_infos; repeat (first [left; reflexivity | right])|].
+  split; [unfold all_infos; repeat (first [left; reflexivity | right])|].
+  split; vm_compute; reflexivity.
+Qed.
+Print Assumptions C16_supported_records.
+
+(** every other (architecture id, syscall mask) is refused; in particular x32 *)
 Theorem C16_other_architectures_refused : forall ai f,
-  ai_id ai <> ai_id info_I386 -> ai_id ai <> ai_id info_X86_64 -> extract ai f = Failed EUnsupportedArch.
-Proof. intros ai f. exact (extract_unsupported rec_i386 rec_x86_64 (ai_id ai) f). Qed.
+  selects (ai_id ai) (ai_mask ai) rec_i386 = false -> selects (ai_id ai) (ai_mask ai) rec_x86_64 = false ->
+  extract ai f = Failed EUnsupportedArch.
+Proof. intros ai f. exact (extract_unsupported rec_i386 rec_x86_64 (ai_id ai) (ai_mask ai) f). Qed.
 Print Assumptions C16_other_architectures_refused.
+
+Theorem C16_x32_refused : ai_id info_X32 = ai_id info_X86_64 /\ forall f, extract info_X32 f = Failed EUnsupportedArch.
+Proof. split; [vm_compute; reflexivity|]. intros f. apply C16_other_architectures_refused; vm_compute; reflexivity. Qed.
+Print Assumptions C16_x32_refused.
 
 (** non-vacuity on the regenerated x86_64 and i386 tables: two functions, a decoy MOV in front of the
     second marker, a site without a number, a call site, the XORL case *)
@@ -105,6 +123,7 @@ Theorem C16_example :
   extract info_I386 (Content (demo_fun1 ++ demo_fun2) false) =
     Done [rec_of 1 "exit" "main.second(SB) /src/main.go" "CALL syscall.Syscall(SB)" "main.go:22" "MOVQ $0x1, 0(SP)"] /\
   extract info_X86_64 (Content demo_fun1 true) = Failed ERead /\
-  extract info_ARM (Content demo_fun1 false) = Failed EUnsupportedArch.
+  extract info_ARM (Content demo_fun1 false) = Failed EUnsupportedArch /\
+  extract info_X32 (Content demo_fun1 false) = Failed EUnsupportedArch.
 Proof. repeat split; vm_compute; reflexivity. Qed.
 Print Assumptions C16_example.
